@@ -100,10 +100,17 @@ class Worker:
                 f.close()
             except Exception:
                 pass
-        try:
-            os.close(self.rfd)
-        except Exception:
-            pass
+        self._close_rfd()
+
+    def _close_rfd(self):
+        # close the result descriptor exactly once: its number is reused by the next worker's pipe, and a second
+        # os.close() of the stale number would cut that worker off (EBADF in an unrelated case)
+        fd, self.rfd = self.rfd, -1
+        if fd >= 0:
+            try:
+                os.close(fd)
+            except Exception:
+                pass
 
     def close(self):
         try:
@@ -115,10 +122,7 @@ class Worker:
         except Exception:
             self.proc.kill()
             self.proc.wait()
-        try:
-            os.close(self.rfd)
-        except Exception:
-            pass
+        self._close_rfd()
         try:
             self.proc.stderr.close()
         except Exception:
@@ -133,7 +137,7 @@ def stuck_location(stderr_text: str) -> str | None:
         return None
     from .worker import _where
     for m in re.finditer(r'File "([^"]+)", line \d+ in (\S+)', stderr_text[i:]):
-        w = _where(m.group(1))
+        w = _where(m.group(1), m.group(2))
         if w:
             return w
     return None
